@@ -14,6 +14,21 @@ _VERIF = os.path.dirname(os.path.dirname(os.path.dirname(os.path.abspath(__file_
 _REPO = os.environ.get("VERIF_REPO", "/repo")
 
 
+def _sweep(build):
+    """remove the overlay copies generated for scratch trees (VERIF_REPO) that no longer exist"""
+    import shutil
+    for d in os.listdir(build):
+        if not d.startswith("gossip_clock_"):
+            continue
+        marker = os.path.join(build, d, ".repo")
+        try:
+            repo = open(marker).read().strip()
+        except OSError:
+            continue
+        if not os.path.isdir(repo):
+            shutil.rmtree(os.path.join(build, d), ignore_errors=True)
+
+
 def _clock_overlay():
     try:
         p = os.path.join(_VERIF, "bin", "gen_gossip_clock")
@@ -22,7 +37,13 @@ def _clock_overlay():
         mod = importlib.util.module_from_spec(spec)
         loader.exec_module(mod)
         tag = "" if _REPO == "/repo" else "_" + hashlib.sha256(_REPO.encode()).hexdigest()[:8]
-        return mod.generate(_REPO, os.path.join(_VERIF, "build", "gossip_clock" + tag))
+        out = os.path.join(_VERIF, "build", "gossip_clock" + tag)
+        res = mod.generate(_REPO, out)
+        if tag:
+            with open(os.path.join(out, ".repo"), "w") as fh:
+                fh.write(_REPO)
+        _sweep(os.path.join(_VERIF, "build"))
+        return res
     except Exception:  # never break the import of the registry; a missing overlay shows up as a build failure of `gossip`
         return {}
 
@@ -37,8 +58,11 @@ COMPONENTS = {
     "gossip": {
         "coq_run_module": "Cluster.GossipRun",
         "accessors": _ACC,
-        "what": ("real cluster.NodeActor instances driven through a harness ActorContext (simulated network, synchronous Ask, explicit "
-                 "timer ticks, virtual clock) in lock-step with Cluster/Gossip.v; property-level monitors on the real code"),
+        "what": ("REAL cluster.NodeActor instances driven through a harness-implemented vivid.ActorContext - no networking, no timers, no "
+                 "wall clock: every Tell(GossipMessage) lands in a simulated network, every Ask (JoinRequest, GetViewRequest) is a synchronous "
+                 "call into the target NodeActor or a timeout, every Scheduler registration is recorded and fired only by the schedule, "
+                 "time.Now() inside internal/cluster is a virtual clock (overlay copies generated at check time by bin/gen_gossip_clock) - "
+                 "in lock-step with Cluster/Gossip.v; property-level monitors on the real code"),
         "timeout": {"quick": 600, "thorough": 3600},
     },
 }
@@ -46,16 +70,60 @@ COMPONENTS = {
 PROPERTIES = {
     "C18": {
         "components": ["gossip"],
-        "rule": "TODO",
-        "modelled_not_verified": [],
+        "rule": ("one case = one whole scenario: the executed schedule (process starts with the observed order and outcome of the join Asks, join "
+                 "retries, gossip ticks, failure-detection ticks, delivery - with the member MemberByAddress picked - or loss of one packet, crash, "
+                 "restart under the same or a fresh NodeID, leave, force-down; each with its virtual clock reading) and, per step, what the real "
+                 "NodeActors did: published events (members/view/leader/quorum/DC-health/leave, lists sorted), GossipMessages sent (source, "
+                 "destination, version vector, member count) and the FULL state of every touched node (own NodeState, every member with "
+                 "id/address/generation/timestamp/status/logical clock/LastSeen, counts, epoch, version vector, last vector heard per address, "
+                 "registered timers, publisher memory, ComputeLeaderAddr). The model replays the schedule and must print the same. Generated "
+                 "scenarios: 2-7 nodes, 1-3 seeds that are not the smallest addresses, permuted seed lists, a self-seeded island, random start "
+                 "order, 0/10/30% loss of packets and Asks, pairwise partitions toggled during the fault phase, crashes and restarts of non-seeds, "
+                 "leaves; then a fault-free phase of fair rounds with per-node timer phases and random delivery orders; classes: join (failure "
+                 "detection off, no stop), restart (off, crash + restart under the same id), leave (off), fd (timeout 300 with "
+                 "SuspectConfirmDuration 0 / 150 / 100000; every fifth scenario with wall-clock sized numbers: 1.7e18 ns, seconds); 32 short "
+                 "scenarios small enough for the in-Coq vm_compute cross-check; plus the five kernel-checked witness executions of "
+                 "Properties/C18.v, whose executed schedule must equal the model's witness schedule step by step. non-trivial = more than 10 "
+                 "steps; distinct = distinct schedules"),
+        "modelled_not_verified": [
+            "each handler of the NodeActor runs to completion before the next message (one mailbox goroutine, C01); a synchronous Ask into the seed is one atomic step of the schedule (the real asker blocks on the future while the seed handles the request)",
+            "the remoting transport is the identity on message values and loses nothing unless the schedule drops the packet or fails the Ask (wire round-trip of the cluster messages is C12; delivery over a healthy link is C11); packets may be reordered arbitrarily (a superset of per-connection FIFO)",
+            "real-time fairness: the fault-free phase is a sequence of fair rounds by definition (every registered timer of every node fires once per round, everything in flight is delivered before the round ends); that the quartz scheduler and the Go runtime provide this is not shown (C20)",
+            "rate limiters (join, gossip) are off = always allow, which is exactly what the code does with the default rate 0; a configured rate is outside the model",
+            "configuration outside the model: datacenter / region / rack labels, SeedsByDC, SeedsResolver, cross-DC gossip round, join secret, allow lists, cluster name, protocol-version window, MaxClockSkew, PreferLocal / PreferRemote, MaxVersionVectorEntries, the two DC-based quorum strategies; MaxDiscoveryTargetsPerTick >= number of candidates (always true for <= 7 nodes with the default 20), so target selection is the full candidate set and rand.Shuffle only permutes the Tells of one broadcast (the model emits them sorted)",
+            "time.Now() is the `now` input of a step (the overlay copies of internal/cluster read the harness clock); utils.NormalizeAddress is the identity on the addresses used (127.0.0.1:port)",
+            "where the code iterates a Go map and the result depends on the order (ClusterView.MemberByAddress with two members of one address = a process restarted under a fresh NodeID) the pick is an input of the step, observed on the implementation",
+            "ForceMemberDown of a node's own id at that node followed by a failure-detection tick that removes ALL remaining members is outside the model: the view becomes empty, recomputeCounts then skips the version-vector prune, and which entries survive depends on the Go map iteration order in RunDetection (observed on the implementation; the harness generates a self force-down only with a timeout that cannot expire)",
+            "Context.Leave (the LeaveRequest comes from a local watcher actor and the process stops afterwards) is one step; LeaveBroadcastDelay / LeaveBroadcastRounds are not read by the current node_actor.go",
+            "metrics are disabled (MetricsEnabled() = false); log output is discarded",
+        ],
     },
 }
 
 META = {
     "C18": {
-        "text": "TODO",
-        "design_ref": "DESIGN.md §4 C18",
-        "note": "TODO",
-        "technique": "Coq proof over a hand-written model + lock-step correspondence check against the Go code + implementation-side monitors",
+        "text": ("PARTIAL. 20 kernel-checked theorems about a Gallina model of the NodeActor (join with generation bump, join request, gossip "
+                 "merge with LastSeen refresh, gossip round with shouldSendGossipTo, failure detection with suspect/confirm/remove, quorum "
+                 "recovery, leave, force-down, leader computation, event publisher) and of a world of such nodes with a lossy reordering network, "
+                 "crashes, restarts and explicit timers. TRUE for all inputs: equal sets of Up members give the same leader (the least address) "
+                 "and exactly one IAmLeader; handleGossip acts on the membership as the join of C17, hence - well-formedness being an invariant of every world reachable by any history - after ANY round of gossip ticks / "
+                 "deliveries / losses in which every node's view reached every other (directly or transitively) all memberships equal the join "
+                 "of the initial ones; a gossip round sends to a target exactly when nothing was heard from it yet or the own vector is After / "
+                 "Concurrent to its last one - Equal suppresses it - and publishes nothing; with failure detection off a quiescent world stays "
+                 "as it is for ever. FALSE (each refuted by a concrete fair execution checked by vm_compute AND replayed on the real NodeActors "
+                 "on every run): the unconditional property (not after 40 fair rounds); (a) healthy members are suspected / removed / re-added "
+                 "for ever because suppressed gossip never refreshes LastSeen; (b) a removed member is resurrected by any peer that still lists "
+                 "it; (c) a Suspect flip is neither propagated nor cleared once vectors are equal - two nodes both IAmLeader; (d) a leave is "
+                 "never announced (Leaving is set on the actor's own state, the broadcast view still says Up) - the left node stays listed and "
+                 "is even computed as leader; (e) a node restarted under its NodeID re-derives an incarnation number its predecessor already "
+                 "had and the stale entry is never replaced; (e2) a restart under a fresh NodeID (the default) leaves two members with one address "
+                 "and MemberByAddress refreshes whichever the map iteration yields (model-level witness, observed on the code in generated "
+                 "scenarios); (f) members learned through a merge carry the sender's own stale LastSeen."),
+        "design_ref": "DESIGN.md §4 C18, §5 (7)",
+        "note": ("Trusted: Coq kernel + vm_compute; ExtrOcamlBasic extraction (cross-checked by vm_compute on the short scenarios each run); the "
+                 "harness (its ActorContext, simulated network and clock, the lexical time.Now rewrite of bin/gen_gossip_clock); the fairness "
+                 "of the real scheduler. Liveness is proved only in the conditional form above. The monitors fire on the unchanged tree for the "
+                 "recorded defects; every hit carries a cause established from the run's history, and a hit without such a cause is a VIOLATION."),
+        "technique": "Coq proof (invariants over an annotated world, finite-map extensionality, reflection of boolean checkers) over a hand-written model + lock-step correspondence check against the real NodeActor under a simulated runtime + implementation-side monitors with cause attribution",
     },
 }
